@@ -967,6 +967,7 @@ class ExternalTensor(TensorBase, _protocols.TensorProtocol):  # pylint: disable=
                         copied += copied_now
                 except OSError as error:
                     if error.errno not in {
+                        errno.EBADF,  # e.g. destination opened in append mode
                         errno.EINVAL,
                         errno.ENOSYS,
                         errno.EOPNOTSUPP,
